@@ -161,6 +161,7 @@ class _Call:
         self.outer_cancel = None  # (seq, t) request by the canceller (top level only)
         self.tasks = []  # online: (thunk, task)
         self.parent_thunk = None
+        self.parent_call = None
 
     def alive(self):
         return [th.name for th in self.thunks if th.start is not None and th.end is None]
@@ -324,6 +325,7 @@ def run(ctx):
         inner.coe = mode == 1
         inner.re = mode == 2
         inner.parent_thunk = th
+        inner.parent_call = call
         lw = list(weights)
         if not inner.re:
             lw[SELFC] = 0  # asyncio.gather would hand the CancelledError to the parent thunk: undocumented territory
@@ -450,6 +452,11 @@ def run(ctx):
             return True
         if call.parent_thunk is not None and call.parent_thunk.saw_cancel is not None:
             return True
+        if call.parent_call is not None and causes_before(call.parent_call, t):
+            # a cancellation of the enclosing call travels through the parent thunk's task into this call's
+            # gather; if a leaf failed in the same loop iteration this call still raises the leaf's error, not
+            # CancelledError, so its own outcome does not show the cause
+            return True
         if call.family == 'online':
             if any(th.end[1] <= t for th in call.failures):
                 return True
@@ -473,6 +480,8 @@ def run(ctx):
                      f'{th.name} saw CancelledError although nothing was cancelled and nothing failed before')
                 return
         outer = call.outer_cancel is not None or call.outcome == 'cancelled'
+        if not outer and call.parent_call is not None and causes_before(call.parent_call, call.ret[1]):
+            outer = True  # the enclosing call had a reason to cancel the parent thunk while this call was in progress
         if outer:
             return
         if call.family == 'online':
@@ -496,11 +505,9 @@ def run(ctx):
                 flag('cancel_on_error', 'C20/cancel_on_error/returned_before_cancelled_thunks_finished',
                      f'{call.name} raised while {call.alive_at_return} were still running')
         else:
-            bad = [th.name for th in call.thunks if th.saw_cancel is not None]
+            # (a remaining thunk that sees a CancelledError is reported by the spurious-cancel check above)
             never = [th.name for th in call.thunks if th.start is None]
-            if bad:
-                flag('no_cancel', 'C20/no_cancel_on_error/remaining_thunk_cancelled', f'{call.name}: {bad}')
-            elif never:
+            if never:
                 flag('no_cancel', 'C20/no_cancel_on_error/remaining_thunk_never_ran', f'{call.name}: {never}')
             elif any(th.end[1] > call.ret[1] for th in call.thunks):
                 ctx.probe('no_cancel_on_error_rest_continued')
